@@ -483,3 +483,149 @@ func typeUnder(t types.Type) types.Type {
 }
 
 var _ = strconv.Quote
+
+// remethod returns an overlay in which a function that took the place of a method of the inventory
+// (`func tM(r *T, a A) R` for the vanished `func (r *T) m(a A) R`, see methodAlias) is that method
+// again and every call `tM(x, a)` is `x.m(a)`; nil when there is none, or when the function is also
+// used as a value.
+func (p *Program) remethod(b *Baseline) (map[string][]byte, []string) {
+	type edit struct {
+		off, end int
+		text     string
+	}
+	edits := map[string][]edit{}
+	var notes []string
+	var names []string
+	for q := range b.Decls["func"] {
+		names = append(names, q)
+	}
+	sort.Strings(names)
+	for _, pkg := range p.All {
+		for _, q := range names {
+			if !strings.HasPrefix(q, pkg.PkgPath+".") {
+				continue
+			}
+			name := q[len(pkg.PkgPath)+1:]
+			dot := strings.Index(name, ".")
+			if dot < 0 || strings.Contains(name, "/") || p.Func(pkg.PkgPath, name) != nil {
+				continue
+			}
+			fd := p.methodAlias(pkg.PkgPath, name)
+			if fd == nil || fd.Recv != nil || fd.Type.TypeParams != nil || len(fd.Type.Params.List) == 0 || len(fd.Type.Params.List[0].Names) != 1 {
+				continue
+			}
+			want, _ := splitOrd(b.Decls["func"][q])
+			wantParams, _ := splitSig(want)
+			if fd.Type.Params.NumFields() != len(wantParams)+1 {
+				continue
+			}
+			// the first parameter is the receiver type (or a pointer to it)
+			first := fd.Type.Params.List[0]
+			rt := pkg.TypesInfo.TypeOf(first.Type)
+			if ptr, ok := rt.(*types.Pointer); ok {
+				rt = ptr.Elem()
+			}
+			named, ok := rt.(*types.Named)
+			if !ok || named.Obj().Pkg() != pkg.Types || named.Obj().Name() != name[:dot] || named.TypeParams().Len() > 0 {
+				continue
+			}
+			fn, _ := pkg.TypesInfo.Defs[fd.Name].(*types.Func)
+			if fn == nil {
+				continue
+			}
+			file := p.Fset.Position(fd.Pos()).Filename
+			src := p.sourceOf(file)
+			if src == nil {
+				continue
+			}
+			off := func(pos token.Pos) int { return p.Fset.Position(pos).Offset }
+			// references: every one the callee of a call with at least one argument
+			type ref struct {
+				file string
+				call *ast.CallExpr
+			}
+			var refs []ref
+			okAll := true
+			for _, f := range pkg.Syntax {
+				fname := p.Fset.Position(f.Pos()).Filename
+				var stack []ast.Node
+				ast.Inspect(f, func(n ast.Node) bool {
+					if n == nil {
+						stack = stack[:len(stack)-1]
+						return false
+					}
+					stack = append(stack, n)
+					id, isID := n.(*ast.Ident)
+					if !isID || pkg.TypesInfo.Uses[id] != types.Object(fn) {
+						return true
+					}
+					if len(stack) >= 2 {
+						if call, isCall := stack[len(stack)-2].(*ast.CallExpr); isCall && call.Fun == ast.Expr(id) && len(call.Args) >= 1 && !call.Ellipsis.IsValid() {
+							refs = append(refs, ref{fname, call})
+							return true
+						}
+					}
+					okAll = false
+					return true
+				})
+			}
+			if !okAll {
+				continue
+			}
+			// declaration: `func tM(r *T, a A)` -> `func (r *T) m(a A)`
+			declEnd := off(fd.Type.Params.Closing)
+			if len(fd.Type.Params.List) > 1 {
+				declEnd = off(fd.Type.Params.List[1].Pos())
+			}
+			recvText := string(src[off(first.Pos()):off(first.End())])
+			edits[file] = append(edits[file], edit{off(fd.Name.Pos()), declEnd, "(" + recvText + ") " + name[dot+1:] + "("})
+			for _, r := range refs {
+				rsrc := p.sourceOf(r.file)
+				if rsrc == nil {
+					okAll = false
+					break
+				}
+				arg0 := r.call.Args[0]
+				text := string(rsrc[off(arg0.Pos()):off(arg0.End())])
+				recv := "(" + text + ")"
+				if plainOperandExpr(arg0) {
+					recv = text
+				} else if u, isAddr := arg0.(*ast.UnaryExpr); isAddr && u.Op == token.AND && plainOperandExpr(u.X) {
+					recv = string(rsrc[off(u.X.Pos()):off(u.X.End())])
+				}
+				end := off(r.call.Rparen)
+				if len(r.call.Args) > 1 {
+					end = off(r.call.Args[1].Pos())
+				}
+				edits[r.file] = append(edits[r.file], edit{off(r.call.Fun.Pos()), end, recv + "." + name[dot+1:] + "("})
+			}
+			if !okAll {
+				delete(edits, file)
+				continue
+			}
+			notes = append(notes, fmt.Sprintf("%s (now %s)", name, fd.Name.Name))
+		}
+	}
+	if len(notes) == 0 {
+		return nil, nil
+	}
+	out := map[string][]byte{}
+	for f, src := range p.overlay {
+		out[f] = src
+	}
+	for file, es := range edits {
+		buf := append([]byte(nil), p.sourceOf(file)...)
+		sort.Slice(es, func(i, j int) bool { return es[i].off > es[j].off })
+		lastOff := len(buf) + 1
+		for _, e := range es {
+			if e.end > lastOff {
+				// nested calls of the same function: give up on the inner one (the overlay then fails to compile and is dropped)
+				continue
+			}
+			lastOff = e.off
+			buf = append(buf[:e.off], append([]byte(e.text), buf[e.end:]...)...)
+		}
+		out[file] = buf
+	}
+	return out, notes
+}
